@@ -28,7 +28,8 @@ ASSUMPTIONS = ["C01's generator and the gap guard", "TimingData / NoteData as re
 MONITORS = ["result_content", "timing_equal", "notes_equal", "unmodified", "no_sharing", "second_call_same", "reload", "reload_autodetect", "negative_refused"]
 REQUIRED = ["template_none", "template_blank", "template_sparse", "template_with_charts", "template_empty",
             "chart_template_empty", "chart_template_sparse", "animations_alias", "ssc_only_key_in_source", "version_key_in_source",
-            "negative_bpm_or_stop", "source_with_charts", "delays_or_warps", "zero_length_stop", "chart_template_empty_timing_keys"]
+            "negative_bpm_or_stop", "source_with_charts", "delays_or_warps", "zero_length_stop", "chart_template_empty_timing_keys",
+            "chart_template_spells_its_notes_NOTES2", "negative_row_followed_by_a_row_for_the_same_beat", "template_with_notes2_chart"]
 
 SSC_ONLY = ["VERSION", "ORIGIN", "LABELS", "MUSICLENGTH", "LASTSECONDHINT", "PREVIEWVID", "JACKET", "CDIMAGE", "DISCIMAGE", "PREVIEW",
             "COMBOS", "SPEEDS", "SCROLLS", "FAKES", "WARPS", "TIMESIGNATURES"]
@@ -50,13 +51,17 @@ def timing_ops(rng, negative):
     def evs(n, lo, hi, neg=False):
         k = 0
         out = []
+        j = (n - 1 if rng.random() < 0.5 else rng.randrange(n)) if neg else -1
         for i in range(n):
             v = rng.uniform(lo, hi)
             if not neg and lo < 50 and rng.random() < 0.15:
                 v = 0.0  # a zero-length stop / delay is well-formed and not negative
-            if neg and i == n - 1:
+            if i == j:
                 v = -v
             out.append(f"{k / 48:.3f}={v:.3f}")
+            if i == j and rng.random() < 0.4:
+                # the negative row is followed by a non-negative row written for the very same beat (same text)
+                out.append(f"{k / 48:.3f}={rng.uniform(lo, hi):.3f}")
             k += rng.randint(1, 400)
         return ",\n".join(out) if rng.random() < 0.5 else ",".join(out)
 
@@ -86,8 +91,8 @@ def cases(ctx):
             extra.append(["set", k, {"VERSION": rng.choice(["0.56", "0.7", "0.83", ""]), "WARPS": "4.000=1.000"}.get(k, "0.000=x")])
         case["ops"] += timing_ops(rng, negative) + extra
         case["negative"] = negative
-        case["template"] = rng.choice(["none", "none", "blank", "sparse", "with_charts", "empty"])
-        case["chart_template"] = rng.choice(["none", "none", "blank", "sparse", "empty", "timing", "empty_timing_keys"])
+        case["template"] = rng.choice(["none", "none", "blank", "sparse", "with_charts", "empty", "with_notes2_chart"])
+        case["chart_template"] = rng.choice(["none", "none", "blank", "sparse", "empty", "timing", "empty_timing_keys", "notes2"])
         case["seed"] = rng.getrandbits(32)
         yield case
 
@@ -129,6 +134,18 @@ def make_templates(case):
         c.description = "template chart"
         st.charts.append(c)
         st.charts.append(SSCChart.blank())
+    elif t == "with_notes2_chart":
+        # a template chart that spells its note data NOTES2 (the alias), and one that has both keys, NOTES2 first
+        st = SSCSimfile.blank()
+        c = SSCChart()
+        c["STEPSTYPE"] = "dance-single"
+        c["NOTES2"] = "0000\n0000\n0000\n0000\n"
+        st.charts.append(c)
+        c = SSCChart()
+        c["NOTES2"] = "1000\n0000\n0000\n0000\n"
+        c["CREDIT"] = "between"
+        c["NOTES"] = "0001\n0000\n0000\n0000\n"
+        st.charts.append(c)
     elif t == "empty":
         st = SSCSimfile(string="")
     ct = None
@@ -139,6 +156,11 @@ def make_templates(case):
         ct = SSCChart()
         ct["CHARTNAME"] = "tpl name"
         ct["CREDIT"] = "tpl credit"
+    elif c_ == "notes2":
+        ct = SSCChart()
+        ct["CHARTNAME"] = "tpl"
+        ct["NOTES2"] = "template note data under the alias"
+        ct["CREDIT"] = "after the alias"
     elif c_ == "empty":
         ct = SSCChart()
     elif c_ == "timing":
@@ -187,6 +209,13 @@ def check(ctx, case):
         ctx.feat("zero_length_stop")
     if case["chart_template"] == "empty_timing_keys":
         ctx.feat("chart_template_empty_timing_keys")
+    if case["chart_template"] == "notes2" and sm.charts:
+        ctx.feat("chart_template_spells_its_notes_NOTES2")
+    if case["negative"]:
+        txt = sm.get("BPMS" if case["negative"] == "bpm" else "STOPS") or ""
+        rows = [r.strip() for r in txt.split(",")]
+        if any(r.split("=")[1].startswith("-") and i + 1 < len(rows) and rows[i + 1].split("=")[0] == r.split("=")[0] for i, r in enumerate(rows) if "=" in r):
+            ctx.feat("negative_row_followed_by_a_row_for_the_same_beat")
     sm_before = copy.deepcopy(sm)
     src_state0 = E.real_state(sm, "sm")
     st_state0 = ssc_state(st) if st is not None else None
